@@ -18,7 +18,7 @@ pub static DEF: PropDef = PropDef {
     level: "exploration",
     total: |t| t.pick(1280, 40000),
     run,
-    rule: "(a) generated description trees (1..3 top-level Networks sections with 1..4 networks of 1..4 ip/range/arbitrary-key entries, 1..6 machines with any options, 1..3 networks, 0..4 protocols and 1..4 applications carrying 0..6 arguments whose values are arbitrary printable ASCII without quote, backslash, closing bracket and 4-space runs, empty values included) are printed by the harness's own renderer in tab, 4-space and CRLF variants with the three machine sections in any order and optional Template lines, parsed by core_parser and compared with the tree; structurally broken renderings (one line indented one level too deep or too shallow, unknown section keyword, a required machine section missing, duplicate network id, duplicate argument) must yield Err with a non-empty message, never Ok and never a panic. (b) valid scenario descriptions (senders with counts 1..5 -> capture by count or by message, sender -> forward -> capture, ping_pong pair, several captures sharing a factory; receivers addressed by machine name, by address or a mix of both; the port written in decimal or hexadecimal independently on the sending and the receiving side; the spare network attached per machine; optional ARP protocol; auto-protocol on no, every or some machines, an auto-protocol machine leaving out IPv4 and/or ARP from its list; extra unused networks) are run with generate_and_run_sim on the paused clock: the result must be Some(Exited), and the process-wide H4 hook must have seen every described message as a UDP frame to the described address and port. Non-trivial = (a) tree with >=2 networks, >=3 machines and >=1 argument value containing a space or '='; (b) every run; distinct by text hash.",
+    rule: "(a) generated description trees (1..3 top-level Networks sections with 1..4 networks of 1..4 ip/range/arbitrary-key entries, 1..6 machines with any options, 1..3 networks, 0..4 protocols and 1..4 applications carrying 0..6 arguments whose values are arbitrary printable ASCII without quote, backslash, closing bracket and 4-space runs, empty values included) are printed by the harness's own renderer in tab, 4-space and CRLF variants with the three machine sections in any order and optional Template lines, parsed by core_parser and compared with the tree; structurally broken renderings (one line indented one level too deep or too shallow, unknown section keyword, a required machine section missing, duplicate network id, duplicate argument) must yield Err with a non-empty message, never Ok and never a panic. (b) valid scenario descriptions (senders with counts 1..5 -> capture by count or by message, sender -> forward -> capture (the forwarder's remote port differing from its local port in two runs of three), ping_pong pair (each side on its own port likewise), several captures sharing a factory; receivers addressed by machine name, by address or a mix of both; the port written in decimal or hexadecimal independently on the sending and the receiving side; the spare network attached per machine; optional ARP protocol; auto-protocol on no, every or some machines, an auto-protocol machine leaving out IPv4 and/or ARP from its list; extra unused networks) are run with generate_and_run_sim on the paused clock: the result must be Some(Exited), and the process-wide H4 hook must have seen every described message as a UDP frame to the described address and port. Non-trivial = (a) tree with >=2 networks, >=3 machines and >=1 argument value containing a space or '='; (b) every run; distinct by text hash.",
     assumptions: &[
         "well-formed argument values exclude ' \\ ] CR and runs of four spaces: the grammar cannot carry them (lexical 4-space->tab and CR removal happen before tokenising); they are used in C14 only",
         "captures are generated with counts/messages equal to what the described senders send, so the normal exit status implies they saw it; the frame log is checked independently",
@@ -343,6 +343,15 @@ fn gen_valid(rng: &mut impl Rng) -> (String, Expect, Value) {
     let port_mode = rng.gen_range(0..4u8);
     let port: u16 = if rng.chance(1, 4) { *rng.pick(&[1u16, 9, 10, 255, 256, 0x7fff, 0x8000, 65534, 65535]) } else { rng.gen_range(1..=65535) };
     let by_name_name = match by_name_mode { 0 => "never", 1 => "always", _ => "per reference" };
+    // a second port, for applications that listen on one port and talk to another
+    let port2: u16 = loop {
+        let p2: u16 = rng.gen_range(1..=65535);
+        if p2 != port {
+            break p2;
+        }
+    };
+    let two_ports = rng.chance(2, 3);
+    let (q, q_s, q_r) = if two_ports { (port2, format!("{port2}"), format!("0x{port2:x}")) } else { (port, format!("{port}"), format!("0x{port:x}")) };
     let port_s = if port_mode & 1 == 1 { format!("0x{port:x}") } else { format!("{port}") };
     let port_r = if port_mode & 2 == 2 { format!("0x{port:x}") } else { format!("{port}") };
     let by_name = |rng: &mut dyn rand::RngCore| match by_name_mode {
@@ -410,17 +419,17 @@ fn gen_valid(rng: &mut impl Rng) -> (String, Expect, Value) {
             let to = if by_name(rng) { "fwd".to_string() } else { ipn(1) };
             let to2 = if by_name(rng) { "cap".to_string() } else { ipn(2) };
             text.push_str(&machine("snd", "", &format!("\t\t\t[Application name='send_message' message='{msg}' to='{to}' port='{port_s}']"), rng));
-            text.push_str(&machine("fwd", "", &format!("\t\t\t[Application name='forward' ip='{}' to='{to2}' local_port='{port_r}' remote_port='{port_s}']", ipn(1)), rng));
-            text.push_str(&machine("cap", "", &format!("\t\t\t[Application name='capture' type='message' ip='{}' port='{port_r}' message='{msg}']", ipn(2)), rng));
+            text.push_str(&machine("fwd", "", &format!("\t\t\t[Application name='forward' ip='{}' to='{to2}' local_port='{port_r}' remote_port='{q_s}']", ipn(1)), rng));
+            text.push_str(&machine("cap", "", &format!("\t\t\t[Application name='capture' type='message' ip='{}' port='{q_r}' message='{msg}']", ipn(2)), rng));
             expect.frames.push((ipb(1), port, msg.clone().into_bytes(), 1));
-            expect.frames.push((ipb(2), port, msg.clone().into_bytes(), 1));
+            expect.frames.push((ipb(2), q, msg.clone().into_bytes(), 1));
             desc = json!({"template": "sender->forward->capture(message)"});
         }
         2 => {
             let (to1, to2) = if by_name(rng) { ("pong".to_string(), "ping".to_string()) } else { (ipn(4), ipn(3)) };
-            text.push_str(&machine("ping", "", &format!("\t\t\t[Application name='ping_pong' starter='true' ip='{}' to='{to1}' local_port='{port_r}' remote_port='{port_s}']", ipn(3)), rng));
-            text.push_str(&machine("pong", "", &format!("\t\t\t[Application name='ping_pong' starter='false' ip='{}' to='{to2}' local_port='{port_r}' remote_port='{port_s}']", ipn(4)), rng));
-            expect.frames.push((ipb(4), port, vec![255], 1));
+            text.push_str(&machine("ping", "", &format!("\t\t\t[Application name='ping_pong' starter='true' ip='{}' to='{to1}' local_port='{port_r}' remote_port='{q_s}']", ipn(3)), rng));
+            text.push_str(&machine("pong", "", &format!("\t\t\t[Application name='ping_pong' starter='false' ip='{}' to='{to2}' local_port='{q_r}' remote_port='{port_s}']", ipn(4)), rng));
+            expect.frames.push((ipb(4), q, vec![255], 1));
             expect.frames.push((ipb(3), port, vec![254], 1));
             expect.frames.push((ipb(3), port, vec![2], 1));
             desc = json!({"template": "ping_pong"});
